@@ -20,9 +20,13 @@ pub enum Route {
     DeclsChildrenAttrs,
     /// attributes first, then the declarations, then the children
     AttrsDeclsChildren,
+    /// like BottomUp, but a text node in front of a non-text sibling is built in two pieces: the first is appended,
+    /// then the sibling, then the second piece is put in with insert_before(sibling, piece) and consolidation has to
+    /// merge it into the first; a text node behind a non-text sibling likewise with insert_after
+    TextPieces,
 }
 
-pub const ROUTES: [Route; 7] = [Route::TopDown, Route::BottomUp, Route::Prepend, Route::InsertBefore, Route::AttrsLast, Route::DeclsChildrenAttrs, Route::AttrsDeclsChildren];
+pub const ROUTES: [Route; 8] = [Route::TopDown, Route::BottomUp, Route::Prepend, Route::InsertBefore, Route::AttrsLast, Route::DeclsChildrenAttrs, Route::AttrsDeclsChildren, Route::TextPieces];
 
 #[derive(Clone, Copy, Debug, PartialEq, Eq)]
 pub enum AttrStyle {
@@ -285,6 +289,64 @@ fn build_rec(xot: &mut Xot, a: &ANode, route: Route, style: AttrStyle) -> Result
         add_abnormal_part(xot, node, a, style, &mut h, true, false)?;
     }
     match route {
+        Route::TextPieces => {
+            let merge = xot.verif_text_consolidation();
+            let mut pending_before: Option<String> = None; // second piece to put in front of the next non-text node
+            let n = a.children.len();
+            for (i, c) in a.children.iter().enumerate() {
+                let chars: Vec<char> = c.text.chars().collect();
+                let next_non_text = i + 1 < n && a.children[i + 1].kind != AKind::Text;
+                let prev_non_text = i > 0 && a.children[i - 1].kind != AKind::Text;
+                if merge && c.kind == AKind::Text && chars.len() >= 2 && next_non_text {
+                    let k = 1 + (chars.len() - 1) / 2;
+                    let first: String = chars[..k].iter().collect();
+                    let t = xot.new_text(&first);
+                    xot.append(node, t).map_err(|e| format!("append failed: {:?}", e))?;
+                    pending_before = Some(chars[k..].iter().collect());
+                    continue;
+                }
+                if merge && c.kind == AKind::Text && chars.len() >= 2 && prev_non_text && pending_before.is_none() {
+                    // second piece first, then the first piece right behind the previous sibling
+                    let k = chars.len() / 2;
+                    let second: String = chars[k..].iter().collect();
+                    let first: String = chars[..k.max(1)].iter().collect();
+                    let second = if k == 0 { String::new() } else { second };
+                    let prev = xot.last_child(node).ok_or("no previous sibling")?;
+                    if k > 0 {
+                        let t2 = xot.new_text(&second);
+                        xot.append(node, t2).map_err(|e| format!("append failed: {:?}", e))?;
+                    }
+                    let t1 = xot.new_text(&first);
+                    xot.insert_after(prev, t1).map_err(|e| format!("insert_after failed: {:?}", e))?;
+                    continue;
+                }
+                let hc = build_rec(xot, c, route, style)?;
+                xot.append(node, hc.node).map_err(|e| format!("append failed: {:?}", e))?;
+                if let Some(piece) = pending_before.take() {
+                    let t = xot.new_text(&piece);
+                    xot.insert_before(hc.node, t).map_err(|e| format!("insert_before failed: {:?}", e))?;
+                }
+                if c.kind != AKind::Text {
+                    h.children.push(hc);
+                }
+            }
+            // the text nodes were built in pieces: their handles are whatever the tree holds now, position by position
+            let real: Vec<Node> = xot.children(node).collect();
+            if real.len() != a.children.len() {
+                return Err(format!("text pieces were not merged: {} children for {} abstract children", real.len(), a.children.len()));
+            }
+            let mut built = std::mem::take(&mut h.children).into_iter();
+            for (c, r) in a.children.iter().zip(real.iter()) {
+                if c.kind == AKind::Text {
+                    h.children.push(HTree { node: *r, nss: Vec::new(), attrs: Vec::new(), children: Vec::new() });
+                } else {
+                    match built.next() {
+                        Some(hc) if hc.node == *r => h.children.push(hc),
+                        _ => return Err("text pieces: a non-text child is not where it was appended".to_string()),
+                    }
+                }
+            }
+        }
         Route::AttrsDeclsChildren => {
             for c in &a.children {
                 let hc = build_rec(xot, c, route, style)?;
